@@ -20,6 +20,18 @@ def native_eq(a, b):
     return a == b
 
 
+def own_frame(eng, what):
+    """ownership (C20): the function under contract keeps no state of its own - no memo table, function attribute, module-level or
+    class-level mutable object is read or written (callers are verified against a contract that is a function of the arguments
+    and the instance state only)"""
+    if eng.foreign_writes:
+        eng.oblige('frame.own', '%s: writes no object outside its arguments / the instance' % what, False, detail='; '.join(eng.foreign_writes[:4]))
+    if eng.foreign_reads:
+        eng.oblige('frame.own', '%s: reads no mutable state outside its arguments / the instance' % what, False, detail='; '.join(sorted(eng.foreign_reads)[:4]))
+    if not eng.foreign_writes and not eng.foreign_reads:
+        eng.oblige('frame.own', '%s: touches no mutable state outside its arguments / the instance' % what, True)
+
+
 def pure_unit(prop, fn, contract, doms, case='', contracts=None, extra_inline=(), spec=None, dontcare=None,
               merge_calls=()):
     """Unit verifying the body of a pure function against its contract.
@@ -47,6 +59,7 @@ def pure_unit(prop, fn, contract, doms, case='', contracts=None, extra_inline=()
             eng.oblige('safe.host', 'body raises %s only where the contract says so' % e.exc.cls.__name__, ok,
                        detail=str(e.exc.attrs.get('args')))
             return
+        own_frame(eng, qn)
         eng.oblige('raises', 'body raises where the contract says so', sym.lnot(exc_cond))
         eng.assume(sym.lnot(exc_cond))
         exp = the_spec(eng, *args)
@@ -126,6 +139,7 @@ def method_unit(prop, fn, doms, on='regs', spec=None, contract=None, contracts=N
         fin = a.read()
         if a.mem is not None:
             fin['mem'] = a.mem.term
+        own_frame(eng, qn)
         # ---- expected
         if spec is not None:
             st = dict(init)
